@@ -31,6 +31,7 @@ PROPS["C19"] = dict(pkg="chain", level="exploration", stages=[
 ])
 
 PROPS["C14"] = dict(pkg="chain", level="exploration", stages=[
+    direct("diamond", "TestC14Diamond"),
     rapid("rapid", "TestC14", dict(shards=16, checks=250), dict(shards=16, checks=8000, timeout=7000)),
 ])
 
